@@ -24,6 +24,7 @@ import (
 )
 
 const ownHV = "ghost:own"
+const sharedHV = "ghost:shared"
 
 func (g *Gen) isMsgPtr(t types.Type) bool {
 	p, ok := t.Underlying().(*types.Pointer)
@@ -181,6 +182,10 @@ func (t *fnTrans) ownEntry() {
 		switch t.g.paramMode(t.fn, p.Name(), i) {
 		case "takes", "cond":
 			init = store(init, t.val(p), "1")
+			if t.g.paramMode(t.fn, p.Name(), i) == "cond" {
+				// API precondition: a message given to Send* is exclusively the caller's
+				t.assume(not(t.sharedGet(t.val(p))))
+			}
 		}
 	}
 	t.assume(eq(t.h.get(t.cur, ownHV), init))
@@ -276,6 +281,7 @@ func (t *fnTrans) ownMessageOp(in ssa.Instruction, callee *ssa.Function, cc *ssa
 		x := t.val(v)
 		t.ownRequire("own.use", "clone", v, x, in.Pos(), "Clone of a message that is not owned")
 		t.ownAdd(x, 1, "true")
+		t.sharedSet(x, "true", "true")
 	case "MakeUnique":
 		v := cc.Args[0]
 		x := t.val(v)
@@ -285,16 +291,19 @@ func (t *fnTrans) ownMessageOp(in ssa.Instruction, callee *ssa.Function, cc *ssa
 		}
 		if res != nil {
 			t.ownAdd(t.val(res), 1, "true")
+			t.sharedSet(t.val(res), "false", "true")
 		}
 	case "Dup":
 		if res != nil {
 			t.ownFresh(t.val(res), "true")
 			t.ownAdd(t.val(res), 1, "true")
+			t.sharedSet(t.val(res), "false", "true")
 		}
 	}
 	if callee != nil && callee.Name() == "NewMessage" && callee.Signature.Recv() == nil && res != nil && t.g.isMsgPtr(res.Type()) {
 		t.ownFresh(t.val(res), "true")
 		t.ownAdd(t.val(res), 1, "true")
+		t.sharedSet(t.val(res), "false", "true")
 	}
 }
 
@@ -338,6 +347,9 @@ func (t *fnTrans) ownArgs(in ssa.Instruction, name string, sig *types.Signature,
 		if len(r) >= 1 {
 			t.ownFresh(r[0], "true")
 			t.ownAdd(r[0], 1, "true")
+			if name == "RecvMsg" || name == "Recv" {
+				t.sharedSet(r[0], "false", "true") // guaranteed by own.unique of every implementation
+			}
 		}
 	}
 }
@@ -438,6 +450,9 @@ func (t *fnTrans) ownReturnHook(in *ssa.Return, rs []string) {
 		v := in.Results[0]
 		if !t.borrowedVal(v) {
 			t.oblige("own.exit", "result:"+t.describe(v), in.Pos(), or("(= "+rs[0]+" 0)", "(>= "+t.ownGet(rs[0])+" 1)"), "returned message is not owned by the callee (released or handed off before return)")
+		}
+		if (t.fn.Name() == "RecvMsg" || t.fn.Name() == "Recv") && !t.borrowedVal(v) {
+			t.oblige("own.unique", "result:"+t.describe(v), in.Pos(), or("(= "+rs[0]+" 0)", not(t.sharedGet(rs[0]))), "a message returned by Recv must not be shared with anyone (MakeUnique before handing it up)")
 		}
 	}
 	// Send-like: on error the message is still the caller's
@@ -592,4 +607,32 @@ func (t *fnTrans) ownFresh(r string, cond string) {
 		}
 	}
 	t.assume(implies(and(cond, "(not (= "+r+" 0))"), and(cs...)))
+}
+
+
+// ---- sharing (reference count > 1 possible) ----------------------------------------
+
+func (t *fnTrans) sharedGet(x string) string {
+	t.h.reg(sharedHV, "(Array Int Bool)")
+	return sel(t.h.get(t.cur, sharedHV), x)
+}
+
+func (t *fnTrans) sharedSet(x string, v string, cond string) {
+	t.h.reg(sharedHV, "(Array Int Bool)")
+	cur := t.h.get(t.cur, sharedHV)
+	t.h.set(t.cur, sharedHV, ite(and(cond, "(not (= "+x+" 0))"), store(cur, x, v), cur))
+}
+
+// a message whose fields are written must not be shared
+func (t *fnTrans) ownWriteShared(in *ssa.Store, l *loc) {
+	if t.ownExempt() || l.kind != locField || l.baseVal == nil || !t.g.isMsgPtr(l.baseVal.Type()) {
+		return
+	}
+	if l.fname != "Header" && l.fname != "Body" {
+		return
+	}
+	if t.local[l.baseVal] {
+		return
+	}
+	t.oblige("own.write_shared", "write:"+l.fname+":"+t.describe(l.baseVal), in.Pos(), not(t.sharedGet(l.base)), "Header/Body of a message that may be shared (Clone'd) is modified; MakeUnique first")
 }
